@@ -285,8 +285,16 @@ func evalC19(c *engine.Case) engine.Verdict {
 					shared = true
 				}
 			case "zero":
-				if len(handles) < 6 {
-					handles = append(handles, &ghandle{g: &graph.Graph{}, st: &gstore{payload: map[int]graph.Vertex{}, edges: map[[2]int]int{}}})
+				// a fresh zero-value graph, and (every other time) a reversed
+				// view of it taken before anything was added
+				if len(handles) < 5 {
+					zs := &gstore{payload: map[int]graph.Vertex{}, edges: map[[2]int]int{}}
+					zg := &graph.Graph{}
+					handles = append(handles, &ghandle{g: zg, st: zs})
+					if op.U%2 == 0 {
+						handles = append(handles, &ghandle{g: zg.Reverse(), st: zs, flip: true})
+						shared = true
+					}
 				}
 			}
 		})
@@ -332,11 +340,19 @@ func evalC19(c *engine.Case) engine.Verdict {
 func genC19(g engine.G) *engine.Case {
 	gh := GHist{Hash: g.Pct(70), MaxID: g.Int(2, 7)}
 	n := g.Int(4, 40)
+	early := g.Pct(25)
 	ops := []string{"add", "add", "add", "addow", "edge", "edge", "edgew", "edgew", "edgew", "rmedge", "rm", "copy", "rev", "rev2", "zero"}
 	for i := 0; i < n; i++ {
 		op := GOp{Op: engine.Pick(g, ops), H: g.Int(0, 5), U: g.Int(0, gh.MaxID-1), V: g.Int(0, gh.MaxID-1)}
 		if i < 3 {
 			op.Op = "add"
+		}
+		if i == 0 && early {
+			// take a view of the still untouched zero-value graph first
+			op.Op, op.H = engine.Pick(g, []string{"rev", "rev2", "copy"}), 0
+		}
+		if i > 0 && i < 4 && early {
+			op.H = g.Int(0, 1) // mutate through either the graph or the early view
 		}
 		if op.Op == "edgew" || op.Op == "edge" {
 			op.W = g.Int(0, 9)
